@@ -39,6 +39,9 @@ pub struct Decl {
     pub gw: usize,
     /// integer-valued output: cells are split at jumps of the value
     pub discrete: bool,
+    /// caps of one exploration (leaves, sampler runs): beyond them the result is "inconclusive"
+    pub max_leaves: usize,
+    pub max_runs: u64,
 }
 
 #[derive(Default, Debug)]
@@ -71,13 +74,18 @@ pub struct Explorer<'a> {
     pub f: &'a (dyn Fn() -> f64 + Sync),
     pub decl: Decl,
     pub out: Explored,
+    /// caps of one exploration: a sampler outside the engine's model (a draw structure that keeps
+    /// branching) must end in "inconclusive", not in an exhausted machine
+    pub max_leaves: usize,
+    pub max_runs: u64,
+    capped: bool,
 }
 
 const BISECT: usize = 44;
 
 impl<'a> Explorer<'a> {
     pub fn new(f: &'a (dyn Fn() -> f64 + Sync), decl: Decl) -> Self {
-        Explorer { f, decl, out: Explored::default() }
+        Explorer { f, decl, out: Explored::default(), max_leaves: decl.max_leaves, max_runs: decl.max_runs, capped: false }
     }
 
     /// run the sampler on `script`; default answers finish the run. A sampler that rejects forever on
@@ -121,7 +129,12 @@ impl<'a> Explorer<'a> {
     }
 
     fn rec(&mut self, prefix: Vec<Ans>, mass: f64) {
-        if mass <= 0.0 {
+        if mass <= 0.0 || self.capped {
+            return;
+        }
+        if self.out.leaves.len() >= self.max_leaves || self.out.runs >= self.max_runs {
+            self.capped = true;
+            self.out.structure_errors.push(format!("exploration cut at {} leaves / {} runs: the draw structure keeps branching beyond what the engine can enumerate", self.out.leaves.len(), self.out.runs));
             return;
         }
         let r = self.run(&prefix);
